@@ -72,7 +72,8 @@ Ltac c13_absall :=
   end.
 Ltac c13_enclose_sampled :=
   cbv beta iota zeta delta [enc out gammatone_sampled sampled_num gammatone_den Nat.sub];
-  first [ rewrite !sampled_closed_4 | rewrite !sampled_closed_3 | rewrite !sampled_closed_2 | idtac ];
+  first [ rewrite !sampled_closed_6 | rewrite !sampled_closed_5 | rewrite !sampled_closed_4
+        | rewrite !sampled_closed_3 | rewrite !sampled_closed_2 | idtac ];
   c13_unfold; c13_absall; interval with (i_prec 100).
 Ltac c13_decide_sampled tag :=
   first [ left; c13_enclose_sampled
